@@ -58,6 +58,26 @@ def handle (j : Json) : R Json := do
     let outs ← (← fldArr j "outs").mapM parseOut
     if outs.length ≠ ops.length then throw "length mismatch"
     return Json.mkObj [("bad", jopt jnat (judgeRouting tables mods (ops.zip outs)))]
+  | "conc_final" =>
+    -- the table after a sequential prefix and a concurrent phase (any interleaving gives the same one for every
+    -- connection that is served by one thread: `conc_depends_on_own`), as sorted triples
+    let mods ← fldStrs j "mods"; let pre ← (← fldArr j "pre").mapM parseOp
+    let threads ← (← fldArr j "threads").mapM (fun th => do (← arr th).mapM parseOp)
+    let s := finalState tables mods [] (pre ++ threads.flatten)
+    return Json.mkObj [("table", jarr (s.map (fun e => Json.arr #[Json.str e.1.1, jnat e.1.2, jnat e.2])))]
+  | "judge_conc" =>
+    let mods ← fldStrs j "mods"
+    let parseTrace (x : Json) : R (List (Op × Out)) := do
+      (← arr x).mapM (fun e => do
+        match (← arr e) with
+        | [o, r] => return (← parseOp o, ← parseOut r)
+        | _ => throw "bad trace entry")
+    let pre ← parseTrace (← fld j "pre")
+    let threads ← (← fldArr j "threads").mapM parseTrace
+    let post ← parseTrace (← fld j "post")
+    return Json.mkObj [("bad", match judgeConc tables mods pre threads post with
+      | some (ph, i) => Json.arr #[jnat ph, jnat i]
+      | none => Json.null)]
   | _ => throw s!"C20: unknown verb {k}"
 
 end Frappy.Drive.C20
